@@ -11,13 +11,10 @@ Open Scope Z_scope.
 
 (* ------------------------------------------------------------------ well-formedness unpacked *)
 Lemma wf_inv f : ape_wf f = true ->
-  exists s, ape_parse f = Ok s /\ has_marker (pbody s ++ ptrailer s) = false /\
-            (zlen (pbody s) = 0 \/ is_marker f 0 = false).
+  exists s, ape_parse f = Ok s /\ has_marker (pbody s ++ ptrailer s) = false.
 Proof.
   unfold ape_wf. destruct (ape_parse f) as [s|]; [|discriminate]. intros H.
-  apply andb_true_iff in H as [H1 H2]. exists s. split; [reflexivity|]. split.
-  - destruct (has_marker _); [discriminate|reflexivity].
-  - apply orb_true_iff in H2 as [H2|H2]; [left; lia|right]. destruct (is_marker f 0); [discriminate|reflexivity].
+  exists s. split; [reflexivity|]. destruct (has_marker _); [discriminate|reflexivity].
 Qed.
 
 (* mutagen's locator on a well-formed file agrees with the strict reader *)
@@ -29,16 +26,23 @@ Theorem locate_wf real f s : ape_wf f = true -> ape_parse f = Ok s ->
                 pbody s = ztake (l_start l) f /\ ptrailer s = zdrop (l_end l) f
   end.
 Proof.
-  intros Hwf Hp. destruct (wf_inv f Hwf) as (s' & Hp' & Hm & H0). rewrite Hp in Hp'. injection Hp' as <-.
+  intros Hwf Hp. destruct (wf_inv f Hwf) as (s' & Hp' & Hm). rewrite Hp in Hp'. injection Hp' as <-.
   destruct (parse_inv f s Hp) as [[SE ->]|(e & its & SE & Hsz & Hst & -> & _)].
   - cbn [ptag pbody ptrailer] in *. rewrite app_nil_r in Hm. split; [apply locate_none; exact Hm|]. split; reflexivity.
   - cbn [ptag pbody ptrailer] in *. destruct (no_marker_app _ _ Hm) as [Hm1 _].
     destruct (strict_end_inv f e SE) as (He & _ & _).
     assert (Hle : tag_start f e <= e - 32) by (unfold tag_start; destruct (ft_hashdr f e); lia).
-    rewrite zlen_ztake in H0 by lia.
     destruct (locate_tagged real f e SE Hsz Hst Hm1) as (l & Hl & L1 & L2 & L3 & _).
-    { destruct H0 as [H0|H0]; [left; lia|right; exact H0]. }
     exists l. rewrite L1, L2. repeat split; auto; lia.
+Qed.
+
+(* the file-object flavour is irrelevant on a well-formed file *)
+Theorem locate_flavour_wf f : ape_wf f = true -> ape_locate true f = ape_locate false f.
+Proof.
+  intros Hwf. destruct (wf_inv f Hwf) as (s & Hp & Hm).
+  destruct (parse_inv f s Hp) as [[SE ->]|(e & its & SE & Hsz & Hst & -> & _)]; cbn [pbody ptrailer] in Hm.
+  - rewrite app_nil_r in Hm. rewrite !locate_none by exact Hm. reflexivity.
+  - destruct (no_marker_app _ _ Hm) as [Hm1 _]. rewrite !(locate_tagged_eq _ f e SE Hsz Hst Hm1). reflexivity.
 Qed.
 
 Lemma splice_end base tag : splice base (zlen base) 0 tag = base ++ tag.
